@@ -2,14 +2,33 @@ from checks import rapid, plain, fuzz, REPLAY
 
 CHECK = dict(
     pkg="c01", level="exploration",
-    rule="TODO",
+    rule="case = entry point (blob.NewReader over a generated io.ReadSeeker | RegClient.BlobGet on the model registry | RegClient.BlobGet on an OCI layout "
+         "whose blob file is tampered | descriptor with inline Data over either store) x content (0..300 B, 512/4096/32 KiB/64 KiB boundaries, tar / tar.gz / JSON) "
+         "x sha256/sha512 x size known/unknown (and descriptors whose size disagrees with their digest) x per-pass corruption of the served stream (bit flip, "
+         "truncate, append, prepend, substitute, swap, rotate at position classes 0/1/mid/last/last+1) x delivery (source chunking, terminal result with data, "
+         "transport error vs clean EOF, lying/absent Content-Length, stall) x per-GET resume script (correct 206, 200 full body with/without Content-Range, 206 from "
+         "a wrong offset with honest/lying Content-Range, 206 with wrong bytes / another blob, 206 without Content-Range, 416, 5xx/429/408/503/404/403) x retry limit "
+         "x throttle width x consumer (Read loops with generated buffer sizes incl. 0, 1, >len; io.ReadAll; io.Copy; ReadFrom; RawBody; ToOCIConfig; "
+         "ToTarReader.RawBody / ReadFile(absent)) x up to 3 rewinds (before the first read, mid-stream, after a complete pass; later passes may serve different bytes) "
+         "x reads continuing after the end. Non-trivial = a pass serves a stream that differs from the content, or a drop/resume happened, or >=2 unequal read sizes, "
+         "or a rewind, or an inconsistent descriptor; distinct by (entry, mode, algo, size-known, per-pass corruption kind and position class, resume behaviours, "
+         "delivery faults, rewind class).",
     jobs=[REPLAY,
           plain("boundary", "TestVerifBoundary", sq=1, st=1),
-          rapid("mem", "TestVerifProp", 240_000, 8_000_000, sq=7, st=5, env={"VERIF_C01_SET": "mem"}),
-          rapid("io", "TestVerifProp", 120_000, 3_000_000, sq=7, st=6, env={"VERIF_C01_SET": "io"}),
+          rapid("mem", "TestVerifProp", 240_000, 6_000_000, sq=7, st=5, env={"VERIF_C01_SET": "mem"}),
+          rapid("io", "TestVerifProp", 120_000, 2_000_000, sq=7, st=6, env={"VERIF_C01_SET": "io"}),
           fuzz("fuzz", "FuzzVerifBlobRead", 120, parallel=4)],
-    technique="TODO",
-    level_text="TODO",
-    level_note="TODO",
-    assumptions=[],
+    technique="property-based testing (rapid) of the blob readers through all four entry points against a scripted source / in-process model registry / tampered OCI layout, "
+              "with an independent crypto/sha256|sha512 oracle over the bytes handed to the caller; exhaustive boundary sweep of small lengths; native go fuzz (bytes decoded into the same Case struct) in thorough",
+    level_text="Generated-input and fault-sequence search. Oracle: whenever a pass over the stream ends cleanly (bare io.EOF from Read, nil from io.ReadAll/io.Copy/RawBody/ToOCIConfig, "
+               "errs.ErrFileNotFound from ReadFile of an absent file) the bytes handed out in that pass alone must hash to the descriptor's digest and, if a size is stated, number exactly that many "
+               "(also for a bare io.EOF that follows an earlier error, and for every pass after a rewind); Descriptor.GetData must not return data that fails the same test. Non-vacuity: intact content "
+               "served by a conforming source with fewer retryable faults than the retry limit must read completely and equal the content (also after rewinds). Exploration, not proof; the boundary job "
+               "enumerates every truncation offset / flipped byte / 1-2 byte overrun x every constant buffer size 0..len+2 x chunking x terminal-with-data x size known/unknown x algorithm for lengths <= 7 (quick) / <= 33 (thorough).",
+    level_note="Trusted: regmodel (in-process registry model; enforces HTTP framing), the harness' scripted source and body wrapper, crypto/sha256 and crypto/sha512, archive/tar+gzip for building tar contents. "
+               "A stream that ends in an error is never a violation. A stalled connection is modelled as the caller's context ending at the stall point (no clock). On a layout the bytes ReadFile/ToOCIConfig pulled are not "
+               "observable and are taken to be the whole file. Self-blocking on the host throttle is observed through the pqueue hook (build tag verif), not through time. Not covered: digest algorithms other than sha256/sha512, "
+               "ReadFile of a file that exists or is whited out (those return before the end of the stream), mirrors (C12), concurrent use of one reader.",
+    assumptions=["in-memory transport (no TLS, no sockets); the model's response bodies behave like net/http bodies (short body -> unexpected EOF, terminal result optionally together with the last bytes)",
+                 "hash collisions of sha256/sha512 do not occur"],
 )
